@@ -545,24 +545,24 @@ func (m *model) exact13(c Cfg, p *Pred, wire []uint16, hw int) (allowed []uint16
 		}
 		return allowed, ""
 	}
+	order := p.SEnable13
 	if p.SDefault || !hasAny13(c.SS) {
-		return nil, "server-default-order(1.3)"
+		// no TLS 1.3 suite configured: the documented default TLS 1.3 list (defaults.go)
+		if hw == -1 {
+			return nil, "server-default-order(1.3):aes-hardware-unknown"
+		}
+		order = defaultOrder13(hw)
 	}
 	// "first valid cipher in the preference list": decidable for the check when the
-	// first id of the ClientHello is a suite of the exported lists; otherwise both
-	// orders are accepted.
-	if len(wire) > 0 && m.exported[wire[0]] {
-		if s, ok := suiteOf(wire[0]); ok {
-			if s.AESGCM {
-				add(firstCommon(p.SEnable13, w13))
-			} else {
-				add(firstCommon(deprioritizeAES13(p.SEnable13), w13))
-			}
-			return allowed, ""
-		}
+	// first id of the ClientHello is a suite of the exported lists and the rule's
+	// wording and table agree on it (gcmRuleClass); otherwise both orders are accepted.
+	cls := m.firstValidClass(wire)
+	if cls != 0 {
+		add(firstCommon(order, w13))
 	}
-	add(firstCommon(p.SEnable13, w13))
-	add(firstCommon(deprioritizeAES13(p.SEnable13), w13))
+	if cls != 1 {
+		add(firstCommon(deprioritizeAES13(order), w13))
+	}
 	return allowed, ""
 }
 
